@@ -4,6 +4,7 @@
 -/
 import Tranp.Lemmas.LarkEntry
 import Tranp.Lemmas.JsonCodec
+import Tranp.Lemmas.CacheShape
 import Tranp.Model.Quotation
 
 namespace Tranp.C15
@@ -170,5 +171,66 @@ theorem derived_nodes (t t' : LarkEntry) (h : storeLoad t = .ok t') :
    fun p ex fp c => derived (fun v => Quote.nodeQuotation v p ex fp c) t t' h⟩
 
 example : ∃ t', storeLoad (.token ['N'] ['x'] ⟨some 1, some 1, some 1, some 2⟩) = .ok t' := ⟨_, rfl⟩
+
+/-! ### the tie: shapes read from the source on every run (translate/gen_lark_cache.py → Generated/LarkCache.lean) -/
+
+open Tranp.Generated in
+/-- `EntryOfLark.source_map` as the translator reads it (which attributes, in which order, guarded by which truth tests, folded
+    into begin/end how) is the model's `sourceMap`, for every entry. -/
+theorem shape_source_map (e : LarkEntry) :
+    Shape.sourceMapBy LarkCache.viewTreeFields LarkCache.viewTokenFields LarkCache.viewTokenTruthy
+      LarkCache.viewTreeFold LarkCache.viewTokenFold e = sourceMap e := Shape.sourceMap_generated e
+
+open Tranp.Generated in
+/-- `Serialization.__dumps` as read from the source writes the records and the span tuple the model's `dumps` writes … -/
+theorem shape_dumps (n v : Str) (ds : List PyVal) (sm : SM) :
+    Shape.smTupleBy LarkCache.dumpTupleOrder sm = .ok (smTuple sm)
+    ∧ Shape.recordBy LarkCache.dumpTreeRecord n [] ds (smTuple sm)
+        = .ok (.dict [(kName, .str n), (kChildren, .list ds), (kSourceMap, smTuple sm)])
+    ∧ Shape.recordBy LarkCache.dumpTokenRecord n v [] (smTuple sm)
+        = .ok (.dict [(kName, .str n), (kValue, .str v), (kSourceMap, smTuple sm)]) :=
+  ⟨Shape.smTuple_generated sm, Shape.treeRecord_generated n ds _, Shape.tokenRecord_generated n v _⟩
+
+open Tranp.Generated in
+/-- … and `Serialization.__loads` as read from the source assigns the stored positions to the attributes, and the constant to
+    `meta.empty`, exactly as the model's `restoredMeta` / restored token does. -/
+theorem shape_loads (sm : SM) :
+    Shape.restoredMetaBy LarkCache.loadsMeta LarkCache.loadsMetaConst [sm.bl, sm.bc, sm.el, sm.ec] = .ok (restoredMeta sm)
+    ∧ Shape.restoredTokBy LarkCache.loadsToken [sm.bl, sm.bc, sm.el, sm.ec] = .ok ⟨sm.bl, sm.bc, sm.el, sm.ec⟩ :=
+  ⟨Shape.restoredMeta_generated sm, Shape.restoredTok_generated sm⟩
+
+open Tranp.Generated in
+/-- `EntryStored.save` calls `json.dumps(data, separators=(',', ':'))` and nothing else (the configuration `printJson` models;
+    `ensure_ascii` and every other option at its default, nothing between `dumps` and `.encode('utf-8')` — the translator
+    refuses any other call shape), and only `Serialization`/`EntryStored` read `Entry.source`. -/
+theorem shape_save :
+    LarkCache.saveKwargs = [(['s', 'e', 'p', 'a', 'r', 'a', 't', 'o', 'r', 's'], ['(', '\'', ',', '\'', ',', ' ', '\'', ':', '\'', ')'])]
+    ∧ LarkCache.sourceReaders.length = 2
+    ∧ LarkCache.sourceReaders.all (fun r => Str.startsWith r "rogw/tranp/implements/syntax/lark/".toList) = true := by
+  refine ⟨by decide, by decide, ?_⟩
+  simp [LarkCache.sourceReaders, Str.startsWith]
+
+open Tranp.Generated in
+/-- The tree cache's identity is made of the grammar's and the source file's full `str(mtime)` (the expressions are pinned
+    verbatim: truncating or dropping one changes the table), in this order … -/
+theorem shape_identity :
+    LarkCache.treeIdentity.map (·.1) = [['g', 'r', 'a', 'm', 'm', 'a', 'r', '_', 'm', 't', 'i', 'm', 'e'], ['m', 't', 'i', 'm', 'e']]
+    ∧ LarkCache.treeIdentity.map (·.2) = ["str(self.__datums.mtime(self.__setting.grammar))".toList, "str(self.__sources.mtime(source_path))".toList]
+    ∧ LarkCache.parserIdentity.map (·.1) = [['m', 't', 'i', 'm', 'e'], ['g', 'r', 'a', 'm', 'm', 'a', 'r'], ['s', 't', 'a', 'r', 't'], ['a', 'l', 'g', 'o', 'r', 'i', 't', 'h', 'e', 'm']] := by
+  refine ⟨by decide, ?_, by decide⟩
+  simp [LarkCache.treeIdentity]
+
+/-- … and the text `Cached.identifier` hashes (`str(identity)`) determines both values: two runs share a tree-cache file name
+    only if the grammar's and the source's mtime strings agree (up to collisions of md5, which is not modelled). -/
+theorem identity_injective (g m g' m' : Str) (hg : Shape.Plain g) (hm : Shape.Plain m) (hg' : Shape.Plain g') (hm' : Shape.Plain m')
+    (h : Shape.pyStrDict (Shape.treeIdentityOf [g, m]) = Shape.pyStrDict (Shape.treeIdentityOf [g', m'])) : g = g' ∧ m = m' := by
+  have hk : (Generated.LarkCache.treeIdentity.map (·.1)).length = 2 := by decide
+  have := Shape.pyStrDict_injective _ [g, m] [g', m'] (by simp [hk]) (by simp [hk])
+    (by intro v hv; simp at hv; rcases hv with rfl | rfl <;> assumption)
+    (by intro v hv; simp at hv; rcases hv with rfl | rfl <;> assumption) h
+  simp at this
+  exact this
+
+example : Shape.Plain ['1', '7', '.', '2', '5'] := by simp [Shape.Plain]
 
 end Tranp.C15
